@@ -2,7 +2,7 @@ SPECIFICATION Spec
 CONSTANTS
   WritePaths = {"add_object", "add_streamed_object", "to_pack_single", "to_pack_batch", "streamed_to_pack_single", "streamed_to_pack_batch", "streamed_to_pack_lazy", "loose_then_pack", "streamed_shortread", "streamed_to_pack_shortread", "streamed_to_pack_noholes", "streamed_to_pack_intruder"}
   LooseOnly = {"add_object", "add_streamed_object", "streamed_shortread"}
-  ReadPaths = {"content", "bulk_content", "stream_1", "stream_7", "stream_65536", "stream_524289", "bulk_stream", "meta", "stale_content", "stale_bulk_stream", "stale_meta"}
+  ReadPaths = {"content", "bulk_content", "stream_1", "stream_7", "stream_65536", "stream_524289", "bulk_stream", "meta", "stale_content", "stale_bulk_stream", "stale_meta", "scan_bulk_content", "scan_bulk_stream"}
   SizeClasses = {0, 1, 2, 65535, 65536, 65537, 131071, 131072, 131073, 524287, 524288, 524289, 1048579}
 INVARIANT RoundTrip
 INVARIANT KeyIsContent
